@@ -171,13 +171,14 @@ where
     I::Native: DecimalCast + ArrowNativeTypeOp,
     O::Native: DecimalCast + ArrowNativeTypeOp,
 {
-    let delta_scale = output_scale - input_scale;
+    // computed in i16: the difference of two i8 scales (and its sum with a precision) can exceed i8
+    let delta_scale = (output_scale as i16) - (input_scale as i16);
 
     // O::MAX_FOR_EACH_PRECISION[k] stores 10^k - 1 (e.g., 9, 99, 999, ...).
     // Adding 1 yields exactly 10^k without computing a power at runtime.
     // Using the precomputed table avoids pow(10, k) and its checked/overflow
     // handling, which is faster and simpler for scaling by 10^delta_scale.
-    let max = O::MAX_FOR_EACH_PRECISION.get(delta_scale as usize)?;
+    let max = O::MAX_FOR_EACH_PRECISION.get(usize::try_from(delta_scale).ok()?)?;
     let mul = max.add_wrapping(O::Native::ONE);
     let f_fallible = move |x| O::Native::from_decimal(x)?.mul_checked(mul).ok();
 
@@ -187,7 +188,7 @@ where
     // then an increase of scale by 3 will have the following effect on the representation:
     // [xxxxx] -> [xxxxx000], so for the cast to be infallible, the output type
     // needs to provide at least 8 digits precision
-    let is_infallible_cast = (input_precision as i8) + delta_scale <= (output_precision as i8);
+    let is_infallible_cast = (input_precision as i16) + delta_scale <= (output_precision as i16);
     let f_infallible = is_infallible_cast
         .then_some(move |x| O::Native::from_decimal(x).unwrap().mul_wrapping(mul));
     Some((f_fallible, f_infallible))
@@ -220,7 +221,8 @@ where
     I::Native: DecimalCast + ArrowNativeTypeOp,
     O::Native: DecimalCast + ArrowNativeTypeOp,
 {
-    let delta_scale = input_scale - output_scale;
+    // computed in i16: the difference of two i8 scales can exceed i8
+    let delta_scale = (input_scale as i16) - (output_scale as i16);
 
     // delta_scale is guaranteed to be > 0, but may also be larger than I::MAX_PRECISION. If so, the
     // scale change divides out more digits than the input has precision and the result of the cast
@@ -228,7 +230,7 @@ where
     // possible result is 999999999/10000000000 = 0.0999999999, which rounds to zero. Smaller values
     // (e.g. 1/10000000000) or larger delta_scale (e.g. 999999999/10000000000000) produce even
     // smaller results, which also round to zero. In that case, just return an array of zeros.
-    let max = I::MAX_FOR_EACH_PRECISION.get(delta_scale as usize)?;
+    let max = I::MAX_FOR_EACH_PRECISION.get(usize::try_from(delta_scale).ok()?)?;
 
     let div = max.add_wrapping(I::Native::ONE);
     let half = div.div_wrapping(I::Native::ONE.add_wrapping(I::Native::ONE));
@@ -258,7 +260,7 @@ where
     // the output type needs to have at least 3 digits of precision.
     // e.g. Decimal(5, 3) 99.999 to Decimal(3, 0) will result in 100:
     // [99999] -> [99] + 1 = [100], a cast to Decimal(2, 0) would not be possible
-    let is_infallible_cast = (input_precision as i8) - delta_scale < (output_precision as i8);
+    let is_infallible_cast = (input_precision as i16) - delta_scale < (output_precision as i16);
     let f_infallible = is_infallible_cast.then_some(move |x| f_fallible(x).unwrap());
     Some((f_fallible, f_infallible))
 }
